@@ -16,7 +16,7 @@ use crate::mqtt_client::session::drive::verif_p_drive::{self as pd, SymIoP};
 use crate::verif_common as vc;
 use crate::{Buffers, ConfigBuilder, ResourceError};
 
-// @harness props=C12,C01,C05,C14,C09 tier=quick layer=L3p
+// @harness props=C12,C01,C05,C14,C09 quick_props=C12,C01,C05,C14 tier=quick layer=L3p
 // @harness funcs="Session::connect, connect_handshake (head), write_packet, write_all, MqttSerializer::encode(Connect) (projection): real CONNECT encoder"
 // @harness sym="prior reader state and timers (arbitrary leftovers), resume flag, session expiry, write/flush fault" bounds="client id 1 byte, no will/auth, keep-alive 60 s, 12-byte receive buffer, 48-byte arena; whole-buffer writes; function ended at the cut point after the CONNECT write"
 // @harness assumes="K5 (arm_replay); projection cut point"
